@@ -4,7 +4,9 @@
 //! publish + evict workload on the real store, interleaved with the store's own batch/commit events. For EVERY
 //! prefix of the log and every subset (up to the limit; above it a reported cap) of the not-yet-synced writes of
 //! that prefix dropped, the disk image is materialised, redb recovery and the real store are reopened on it and
-//! the content is compared with the reference model of committed batches.
+//! the content is compared with the reference model of committed batches. The workloads contain batches opened by
+//! every kind of message that can open one (publish, lookup, eviction check) with publishes joining them; the
+//! batch shapes are measured from the store's message events and required.
 //! Part B (E1): every history of publishes (timestamps on both sides of the retention cut-off) and eviction steps
 //! (scan, then one CheckExpired at a time) on the live store, then reopened.
 use iroh_dns::pkarr::SignedPacket;
@@ -294,11 +296,20 @@ impl Live {
             Op::EvictStep => {
                 let at = self.evict_at;
                 let before = (seams::arrivals(GATE_EVICT_CYCLE), seams::arrivals(GATE_BEFORE_CE));
+                // every step makes the task send exactly one message (Snapshot or CheckExpired)
+                let handled = || LOG.lock().unwrap().iter().filter(|e| matches!(e, Entry::Mark(l, _) if *l == EVENT_MSG || *l == EVENT_SNAPSHOT_OUTSIDE_BATCH)).count();
+                let handled_before = handled();
                 if !seams::release(at) {
                     return Err("machinery: evict task not parked".into());
                 }
                 wait_until("evict task to park again", || (seams::arrivals(GATE_EVICT_CYCLE), seams::arrivals(GATE_BEFORE_CE)) != before && seams::waiting(GATE_EVICT_CYCLE) + seams::waiting(GATE_BEFORE_CE) == 1).await?;
                 self.evict_at = if seams::waiting(GATE_BEFORE_CE) == 1 { GATE_BEFORE_CE } else { GATE_EVICT_CYCLE };
+                // like publish and get, the step returns only when the actor has handled the message and, if it
+                // filled the batch, the commit has returned: otherwise the next step could let the eviction task
+                // drop its read snapshot while that commit is running (redb's page reclamation sees live readers,
+                // the storage log would depend on the race)
+                wait_until("the eviction task's message to be handled", || handled() > handled_before).await?;
+                self.settle().await?;
                 Ok(format!("evict:{}", if at == GATE_EVICT_CYCLE { "scan" } else { "check-expired" }))
             }
         }
@@ -440,7 +451,95 @@ fn workload(i: usize) -> (usize, Vec<Op>) {
                 p(2, 3, 1), Op::EvictStep, Op::EvictStep, Op::EvictStep, p(1, -1, 0), Op::Get(1),
             ],
         ),
+        // batch size 2, batches opened by EVERY kind of message the actor accepts in a batch (Snapshot cannot open
+        // one: as first message it is answered outside a write transaction). Every ordered pair (opener in
+        // {Upsert, Get, CheckExpired}) x (second in {Upsert, Get, CheckExpired, Snapshot}) except CheckExpired+
+        // CheckExpired (that one is in workload 0) occurs as a batch; in particular a lookup-opened and an
+        // eviction-opened batch that a state-changing publish joins, and the reverse orders.
+        // Determinism of the storage log: whenever a message of the eviction task is the one that fills a batch,
+        // the task ends up parked before its next CheckExpired, i.e. its read snapshot is alive during the commit
+        // (no race between the commit and the drop of the snapshot, which redb's page reclamation could see).
+        2 => (
+            2,
+            vec![
+                p(0, -100, 0), p(1, -90, 0), // [U,U]
+                p(2, -80, 0), Op::Get(2), // [U,G]
+                Op::EvictStep, // idle actor: snapshot outside a batch; scan reports key0,key1,key2; parked before CE(key0)
+                p(0, 10, 0), Op::EvictStep, // [U,CE] CheckExpired(key0: no longer expired) joins
+                Op::Get(1), Op::EvictStep, // [G,CE] CheckExpired(key1) joins a lookup-opened batch and evicts
+                Op::EvictStep, p(1, 7, 0), // [CE,U] CheckExpired(key2) opens and evicts (cycle ends), fresh re-publish of key1 joins
+                Op::Get(2), p(2, -60, 0), // [G,U] lookup opens, publish joins
+                p(0, 20, 0), Op::EvictStep, // [U,S] next cycle's snapshot joins; scan reports key2
+                Op::EvictStep, Op::Get(2), // [CE,G] CheckExpired(key2) opens and evicts (cycle ends), lookup joins
+                p(2, -50, 0), Op::Get(0), // [U,G]
+                Op::Get(1), Op::EvictStep, // [G,S] snapshot joins a lookup-opened batch; scan reports key2
+                Op::EvictStep, Op::EvictStep, // [CE,S] CheckExpired(key2) opens and evicts, the next snapshot joins and still sees key2
+                Op::EvictStep, p(2, 30, 0), // [CE,U] CheckExpired(key2: not found) opens, fresh re-publish joins
+                Op::Get(0), Op::Get(1), // [G,G]
+                p(1, 8, 0), // [U] committed by the shutdown
+            ],
+        ),
+        // batch size 3 (thorough): openers of every kind with the publish in second or third place, mixed with the
+        // other kinds: [U,U,U] [G,U,G] [CE,CE,U] [G,G,U] [CE,U,S] [G,CE,U] [CE,G,U] [G,S,U] [U,CE,G] [U]
+        // (same determinism rule as workload 2: an eviction-task message fills a batch only when the task then
+        // parks before its next CheckExpired)
+        3 => (
+            3,
+            vec![
+                p(0, -100, 0), p(1, -90, 0), p(2, -80, 0), // [U,U,U]
+                Op::EvictStep, // idle: snapshot outside, scan reports key0,key1,key2
+                Op::Get(0), p(0, -100, 1), Op::Get(0), // [G,U,G] tie on the timestamp, larger payload wins
+                Op::EvictStep, Op::EvictStep, p(0, 15, 0), // [CE,CE,U] key0, key1 evicted, key0 re-published fresh
+                Op::Get(1), Op::Get(2), p(1, -30, 0), // [G,G,U]
+                Op::EvictStep, p(2, 25, 0), Op::EvictStep, // [CE,U,S] CE(key2) evicts, fresh re-publish, snapshot of the committed state (old key2, key1)
+                Op::Get(0), Op::EvictStep, p(0, 15, 1), // [G,CE,U] CE(key2: no longer expired)
+                Op::EvictStep, Op::Get(1), p(1, -20, 0), // [CE,G,U] CE(key1) evicts, re-published old
+                Op::Get(2), Op::EvictStep, p(2, 25, 1), // [G,S,U] scan reports key1
+                p(0, 40, 0), Op::EvictStep, Op::Get(1), // [U,CE,G] CE(key1) evicts
+                Op::EvictStep, // idle: snapshot outside, nothing expired
+                p(1, -5, 0), // [U] committed by the shutdown
+            ],
+        ),
         _ => unreachable!(),
+    }
+}
+
+/// kind of a handled message from its Debug text (the `dnssrv.store.msg` mark)
+fn kind_of(data: &str) -> &'static str {
+    if data.starts_with("Upsert") {
+        "U"
+    } else if data.starts_with("Get") {
+        "G"
+    } else if data.starts_with("CheckExpired") {
+        "CE"
+    } else if data.starts_with("Snapshot") {
+        "S"
+    } else {
+        "?"
+    }
+}
+
+/// one write batch as observed in the log
+#[derive(Clone, Debug)]
+struct Batch {
+    /// kinds of the messages handled in it, in order; the first one opened it
+    kinds: Vec<&'static str>,
+    /// publishes in it that changed the reference state (a packet a crash must not lose once the batch committed)
+    effective_publishes: usize,
+    /// effective publishes that are not the opener
+    joined_effective_publishes: usize,
+    /// "batch" | "cancel"
+    committed_by: String,
+    /// storage writes / syncs logged between the batch's begin and its commit mark
+    writes: usize,
+    syncs: usize,
+}
+impl Batch {
+    fn shape(&self) -> String {
+        format!("[{}]", self.kinds.join(","))
+    }
+    fn opener(&self) -> &'static str {
+        self.kinds.first().copied().unwrap_or("-")
     }
 }
 
@@ -471,6 +570,8 @@ struct Timeline {
     states: Vec<Model>,
     commits_before: Vec<usize>,
     begins_before: Vec<usize>,
+    /// the write batches in log order (batch j is the one whose commit produces states[j + 1])
+    batches: Vec<Batch>,
 }
 
 fn timeline(rec: &Recorded) -> Result<Timeline, String> {
@@ -479,17 +580,41 @@ fn timeline(rec: &Recorded) -> Result<Timeline, String> {
     let mut commits_before = Vec::with_capacity(rec.log.len() + 1);
     let mut begins_before = Vec::with_capacity(rec.log.len() + 1);
     let (mut c, mut b, mut ups) = (0, 0, 0);
+    let mut batches: Vec<Batch> = Vec::new();
     for e in &rec.log {
         commits_before.push(c);
         begins_before.push(b);
         if let Entry::Mark(l, d) = e {
             match *l {
-                EVENT_BATCH_BEGIN => b += 1,
-                EVENT_MSG => model.apply(&parse_msg(d, &rec.universe, &mut ups)?),
+                EVENT_BATCH_BEGIN => {
+                    b += 1;
+                    batches.push(Batch { kinds: vec![], effective_publishes: 0, joined_effective_publishes: 0, committed_by: String::new(), writes: 0, syncs: 0 });
+                }
+                EVENT_MSG => {
+                    let m = parse_msg(d, &rec.universe, &mut ups)?;
+                    let before = model.clone();
+                    model.apply(&m);
+                    let cur = batches.last_mut().filter(|_| b == c + 1).ok_or("machinery: message handled outside a write batch")?;
+                    if matches!(m, Msg::Upsert(_)) && model != before {
+                        cur.effective_publishes += 1;
+                        if !cur.kinds.is_empty() {
+                            cur.joined_effective_publishes += 1;
+                        }
+                    }
+                    cur.kinds.push(kind_of(d));
+                }
                 EVENT_COMMIT => {
                     c += 1;
                     states.push(model.clone());
+                    batches.last_mut().filter(|_| b == c).ok_or("machinery: commit without an open batch")?.committed_by = d.clone();
                 }
+                _ => {}
+            }
+        } else if b == c + 1 {
+            let cur = batches.last_mut().unwrap();
+            match e {
+                Entry::Write { .. } => cur.writes += 1,
+                Entry::Sync => cur.syncs += 1,
                 _ => {}
             }
         }
@@ -499,7 +624,7 @@ fn timeline(rec: &Recorded) -> Result<Timeline, String> {
     if b != c {
         return Err(format!("machinery: {b} batches begun, {c} committed at the end of the workload"));
     }
-    Ok(Timeline { states, commits_before, begins_before })
+    Ok(Timeline { states, commits_before, begins_before, batches })
 }
 
 fn materialise(log: &[Entry], prefix: usize, dropped: &[usize]) -> Vec<u8> {
@@ -539,7 +664,14 @@ fn judge_crash(ctx: &Ctx, rec: &Recorded, tl: &Timeline, prefix: usize, dropped:
     let begun = tl.begins_before[q];
     let img = materialise(&rec.log, prefix, dropped);
     let phase = if prefix < rec.created_at { "during-create" } else if prefix == rec.log.len() { "after-shutdown" } else { "workload" };
-    let class = format!("{phase}/dropped:{}", if dropped.is_empty() { "none" } else if dropped.len() == unsynced(&rec.log, prefix).len() { "all-unsynced" } else { "some" });
+    // where the crash falls relative to the write batches: which kind of message opened the last batch whose
+    // commit was logged (its publishes are what the crash must not lose) and the batch in flight, if any
+    let at = format!(
+        "last-commit:{}{}",
+        if durable == 0 { "none".to_string() } else { format!("{}-opened", tl.batches[durable - 1].opener()) },
+        if begun > durable { format!("+in-flight:{}-opened", tl.batches[begun - 1].opener()) } else { String::new() }
+    );
+    let class = format!("{phase}/{at}/dropped:{}", if dropped.is_empty() { "none" } else if dropped.len() == unsynced(&rec.log, prefix).len() { "all-unsynced" } else { "some" });
     let r = block_on(reopen(img))?;
     let r = match r {
         Ok(r) => r,
@@ -705,11 +837,11 @@ fn main() {
         clock_micros: seams::hook_clock_micros,
         fill_bytes: seams::hook_fill_bytes,
     });
-    ctx.set_rule("A: for every prefix of the recorded storage log (write/set_len/sync) of each workload and every subset of the writes not yet followed by a sync (all subsets up to the limit; above it none/all/each-one-dropped/each-one-kept, reported as a cap) a crash image is materialised and reopened with redb + the real store; two cases are distinct when (workload, prefix, dropped set) differ. B: every history over {publish(key, timestamp relative to the cut-off, payload), eviction step} up to the length bound on the live store with exact content comparison after every step, then two complete eviction cycles and a reopen");
+    ctx.set_rule("A: the workloads contain write batches opened by every kind of message that can open one (publish, lookup, eviction check; a snapshot joins batches but never opens one) in both orders with a publish; for every prefix of the recorded storage log (write/set_len/sync) of each workload and every subset of the writes not yet followed by a sync (all subsets up to the limit; above it none/all/each-one-dropped/each-one-kept, reported as a cap) a crash image is materialised and reopened with redb + the real store; two cases are distinct when (workload, prefix, dropped set) differ. B: every history over {publish(key, timestamp relative to the cut-off, payload), eviction step} up to the length bound on the live store with exact content comparison after every step, then two complete eviction cycles and a reopen");
     ctx.assume("crash model: a write issued before the last sync of the prefix is durable; later writes are each independently lost or kept, whole (no torn writes); set_len is applied immediately");
     ctx.assume("the eviction cut-off is owned through the dnssrv.evict.now seam (constant); eviction cycles and each CheckExpired send are released by gates; batches end by count only; stored last-seen prefix (wall clock) is ignored");
     ctx.assume("a crash before the empty database finished being created may leave a file redb refuses to open");
-    ctx.min_outcomes(8);
+    ctx.min_outcomes(20);
 
     if let Some(c) = ctx.replay_case::<Case>() {
         match c {
@@ -723,17 +855,44 @@ fn main() {
         ctx.finish();
     }
 
+    // diagnostic (not a check): C39_SHAPES=n records every workload n times and prints the shape of each log
+    if let Some(n) = std::env::var("C39_SHAPES").ok().and_then(|v| v.parse::<usize>().ok()) {
+        for w in 0..4 {
+            for _ in 0..n {
+                let rec = block_on(record(w)).unwrap_or_else(|e| machinery_error(&format!("workload {w}: {e}")));
+                let tl = timeline(&rec).unwrap_or_else(|e| machinery_error(&e));
+                println!("workload {w} {} {}", shape_hash(&rec.log), tl.batches.iter().map(|b| format!("{}w{}s{}", b.shape(), b.writes, b.syncs)).collect::<Vec<_>>().join(" "));
+            }
+        }
+        std::process::exit(0);
+    }
+
     // ---- part A
-    let subset_limit: usize = ctx.pick(6, 10);
-    let workloads: Vec<usize> = ctx.pick(vec![0], vec![0, 1]);
+    let t_start = Instant::now();
+    let subset_limit: usize = ctx.pick(8, 10);
+    let workloads: Vec<usize> = ctx.pick(vec![0, 2], vec![0, 1, 2, 3]);
     ctx.bound("subset_limit", subset_limit);
     ctx.bound("workloads", &workloads);
     let mut total_images = 0u64;
+    // measured coverage of batch compositions over the workloads of this tier: shape -> occurrences
+    let mut shapes: BTreeMap<String, usize> = BTreeMap::new();
+    // opener kind -> batches it opened / of those, batches that a state-changing publish joined
+    let mut openers: BTreeMap<&'static str, (usize, usize)> = BTreeMap::new();
     for &w in &workloads {
         let rec = block_on(record(w)).unwrap_or_else(|e| machinery_error(&format!("workload {w}: {e}")));
         let tl = timeline(&rec).unwrap_or_else(|e| machinery_error(&e));
         let io_ops = rec.log.iter().filter(|e| !matches!(e, Entry::Mark(..))).count();
+        for b in &tl.batches {
+            *shapes.entry(b.shape()).or_default() += 1;
+            let o = openers.entry(b.opener()).or_default();
+            o.0 += 1;
+            if b.joined_effective_publishes > 0 {
+                o.1 += 1;
+            }
+        }
         ctx.extra(&format!("workload{w}_log"), serde_json::json!({
+            "batch_size": workload(w).0, "operations": workload(w).1.len(),
+            "batches": tl.batches.iter().map(|b| format!("{}{} writes={} syncs={}", b.shape(), if b.committed_by == "cancel" { " (committed by shutdown)" } else { "" }, b.writes, b.syncs)).collect::<Vec<_>>(),
             "io_ops": io_ops, "syncs": rec.log.iter().filter(|e| matches!(e, Entry::Sync)).count(),
             "commits": tl.states.len() - 1, "created_at": rec.created_at, "shape_hash": shape_hash(&rec.log),
             "max_unsynced": (0..=rec.log.len()).map(|p| unsynced(&rec.log, p).len()).max().unwrap_or(0),
@@ -764,12 +923,30 @@ fn main() {
             ctx.cap_hit(&format!("workload {w}: {capped} prefixes have more than {subset_limit} unsynced writes; for those only none/all/each-one-dropped/each-one-kept were explored"));
         }
         total_images += cases.len() as u64;
+        ctx.bound(&format!("crash_images_workload{w}"), cases.len());
         RECORDING.store(false, Ordering::SeqCst);
         par_for_each(&cases, |(prefix, dropped)| run_crash_case(&ctx, &rec, &tl, w, *prefix, dropped));
     }
     ctx.bound("crash_images", total_images);
+    ctx.extra("batch_shapes", &shapes);
+    ctx.extra("batches_by_opener (opened, of those joined by a state-changing publish)", &openers);
+    // the crash workloads must contain batches opened by every kind of message that can open one, and the ones
+    // opened by a lookup / an eviction check must have been joined by a publish that changed the reference state
+    // (otherwise "a packet whose batch committed" is never at stake in such a batch): a workload that stops
+    // producing them is a broken harness, not a pass
+    for kind in ["U", "G", "CE"] {
+        let (opened, joined) = openers.get(kind).copied().unwrap_or((0, 0));
+        if opened == 0 || (kind != "U" && joined == 0) {
+            machinery_error(&format!("crash workloads {workloads:?}: batches opened by {kind}: {opened}, joined by a state-changing publish: {joined} - the workloads no longer cover every batch opener"));
+        }
+    }
+    if !shapes.keys().any(|s| s.contains(",S")) {
+        machinery_error("crash workloads: no batch contains a Snapshot message");
+    }
 
+    ctx.extra("wall_s_part_a", t_start.elapsed().as_secs_f64());
     // ---- part B (serial: the eviction gate lives in the process-global registry)
+    let t_start = Instant::now();
     let mk = |keys: usize, rels: &[i64]| {
         let mut a: Vec<Op> = vec![Op::EvictStep];
         for key in 0..keys {
@@ -807,5 +984,6 @@ fn main() {
             break;
         }
     }
+    ctx.extra("wall_s_part_b", t_start.elapsed().as_secs_f64());
     ctx.finish();
 }
